@@ -175,12 +175,26 @@ def run_case(case):
             if name == "set_vec":
                 L, A = _per_frame(op[1], n)
                 H = _vectors(L, A)
+                mirrored = False
                 if op[2] is not None:
                     R = oracle.random_rotation(np.random.Generator(np.random.PCG64(op[2])))
                     H = H @ R.T
                     rotated = True
                     tag = "set_vec-rotated"
-                t.unitcell_vectors = H
+                    if op[2] % 4 == 3:
+                        # the same cell described in a left-handed frame (mirror image): lengths and angles depend on the Gram
+                        # matrix only, so they are those of the cell; refusing such input with an error is accepted
+                        H = H * np.array([1.0, 1.0, -1.0])
+                        mirrored = True
+                        tag = "set_vec-mirrored"
+                if mirrored:
+                    try:
+                        t.unitcell_vectors = H
+                    except (ValueError, TypeError) as e:
+                        labels.append("mirrored-vectors-refused")
+                        continue
+                else:
+                    t.unitcell_vectors = H
                 mL, mA = L, A
                 n_assign += 1
                 distinct = distinct or len(set(op[1]["A"])) == 3
